@@ -64,6 +64,7 @@ class Contract:
     asserts: dict[str, dict[str, str]] = field(default_factory=dict)  # {source prefix of a statement: {name: clause}}: proved on every path reaching the statement, then assumed (cut rule)
     result_is: str | None = None  # for a PURE function: the specification expression its result equals (used where the call is implicit and element-wise, e.g. list ==)
     labels: dict[str, str] = field(default_factory=dict)  # {label: source prefix of a statement}: the state BEFORE that statement, for at(label, e) and two-heap lemma instances
+    each_local: dict[str, str] = field(default_factory=dict)  # clauses over `node` AND the locals of the comprehension body (e.g. `match`): proved of the arbitrary element, not exported
     comp_each: dict[str, str] = field(default_factory=dict)  # clauses over `elem` (the element) and `k_` (its index) proved of the arbitrary element of a comprehension and then assumed of all
     collector: str | None = None  # name of the local list the function appends its results to (standard collector invariant for its loops)
 
